@@ -53,11 +53,13 @@ type FuncSpec struct {
 	Inline    bool
 	NoReturn  bool // calling it never returns (log.Fatal, os.Exit): treated as panic
 	NoEscape  bool // structural: recover-frame rule
-	FuncType  bool // contract of a function type (applies to dynamic calls)
-	Trusted   bool // repository function whose contract is used but not verified (listed as assumption)
-	Nopanic   bool // shorthand for all safety checks
-	File      string
-	Used      bool
+	// AssumeResult: callee short name -> conditions on its result assumed at this function's call sites
+	AssumeResult map[string][]Clause
+	FuncType     bool // contract of a function type (applies to dynamic calls)
+	Trusted      bool // repository function whose contract is used but not verified (listed as assumption)
+	Nopanic      bool // shorthand for all safety checks
+	File         string
+	Used         bool
 }
 
 type SpecFn struct {
@@ -378,6 +380,23 @@ func (fs *FuncSpec) addDirective(word, rest, where string) error {
 		}
 		name := strings.TrimSpace(rest[:i])
 		fs.CallPre[name] = append(fs.CallPre[name], c)
+	case "assume-result":
+		// assume-result <callee short name>: expr over the callee's parameters and result —
+		// the contract is stated for the executions in which this call ends like that
+		// (e.g. start-up code under "the data directory could be opened"); listed as an assumption
+		i := strings.Index(rest, ": ")
+		if i < 0 {
+			return fmt.Errorf("assume-result <callee>: <expr>")
+		}
+		c, err := mkClause(strings.TrimSpace(rest[i+2:]), where)
+		if err != nil {
+			return err
+		}
+		if fs.AssumeResult == nil {
+			fs.AssumeResult = map[string][]Clause{}
+		}
+		name := strings.TrimSpace(rest[:i])
+		fs.AssumeResult[name] = append(fs.AssumeResult[name], c)
 	case "onsend-add":
 		// onsend-add <ghost var>: <int expr over ch and val>
 		i := strings.Index(rest, ": ")
@@ -623,4 +642,17 @@ func (s *Specs) loadAssumed(dir string) error {
 		}
 	}
 	return nil
+}
+
+// claimsTermination: the contract carries a measure on the function or on one of its loops.
+func (fs *FuncSpec) claimsTermination() bool {
+	if fs.Decreases != nil {
+		return true
+	}
+	for _, l := range fs.Loops {
+		if l.Decreases != nil {
+			return true
+		}
+	}
+	return false
 }
